@@ -171,6 +171,11 @@ class Tuner_schedule_new_tasks:
         }
 
 
+from pyvc.native import native_monitor  # noqa: E402
+
+EXTRA_CHECKS = [native_monitor("C01", "contracts.c02_native", "monitor_delivery", "delivery", "the delivery monitor of C02 / C10 (about 1400 / 4800 scenarios); for C01: back ends refuse to resume a trial that is not paused and never leave a terminal state (in-memory, LocalBackend with a scripted worker, simulator), results and end notifications in life-cycle order under the real Tuner.run")]
+
+
 # at the end: contracts.c12 imports this module for Tuner_schedule_new_tasks (mutual import)
 from contracts.c12 import Tuner_run  # noqa: F401,E402  (the tuning loop itself: worker budget and life cycle over whole runs, bounded)
 from contracts.c10 import ScenarioSim, SimState_remove_events, SimState_push, SimState_next_until  # noqa: F401,E402  (simulator back end: event order = life-cycle order)
